@@ -1034,4 +1034,264 @@ theorem numeric_row_quiet (cells : List Cell) (trail : Str) (h : lineOk cells tr
 example : NoTrigger (renderCells [⟨[], "0".toList⟩, ⟨"\t".toList, "300.5".toList⟩, ⟨" ".toList, "-1.3e-4".toList⟩] []) :=
   (numeric_row_quiet _ _ (by decide) (by decide)).1
 
+
+/-! ## round 6: the refusals of `flatten`, exactly -/
+
+theorem tableRows_error (b : Bool) (t : Table) (e : Err) (h : tableRows b t = .error e) : e = .type := by
+  unfold tableRows at h
+  generalize t.rows = rows at h
+  induction rows with
+  | nil => simp [List.mapM_nil, pure, Except.pure] at h
+  | cons r rs ih =>
+    rw [List.mapM_cons] at h
+    simp only [bind, Except.bind, pure, Except.pure] at h
+    split at h
+    · rename_i e' he
+      cases h
+      repeat' split at he
+      all_goals first | (cases he; rfl) | cases he
+    · rename_i v hv
+      split at h
+      · rename_i e' he; cases h; exact ih he
+      · cases h
+
+theorem mapM_tableRows_error (b : Bool) (tabs : List Table) (e : Err) (h : tabs.mapM (tableRows b) = .error e) :
+    e = .type := by
+  induction tabs with
+  | nil => simp [List.mapM_nil, pure, Except.pure] at h
+  | cons t ts ih =>
+    rw [List.mapM_cons] at h
+    simp only [bind, Except.bind, pure, Except.pure] at h
+    split at h
+    · rename_i e' he; cases h; exact tableRows_error b t _ he
+    · split at h
+      · rename_i e' he; cases h; exact ih he
+      · cases h
+
+theorem mapM_tableRows_length (b : Bool) (tabs : List Table) (rows : List (List Row))
+    (h : tabs.mapM (tableRows b) = .ok rows) : rows.length = tabs.length := by
+  induction tabs generalizing rows with
+  | nil => simp [List.mapM_nil, pure, Except.pure] at h; subst h; rfl
+  | cons t ts ih =>
+    rw [List.mapM_cons] at h
+    simp only [bind, Except.bind, pure, Except.pure] at h
+    split at h
+    · cases h
+    · split at h
+      · cases h
+      · rename_i v hv vs hvs
+        cases h
+        simp [ih _ hvs]
+
+/-- the Step assertion of `flattenTables` -/
+def AssertFails (tabs : List Table) : Prop := ∃ t ∈ tabs, t.rows ≠ [] ∧ stepName ∉ t.cols
+
+theorem assertFails_iff (tabs : List Table) :
+    tabs.any (fun t => !t.rows.isEmpty && !t.cols.contains stepName) = true ↔ AssertFails tabs := by
+  rw [any_eq_true]
+  constructor
+  · rintro ⟨x, hx, hc⟩
+    refine ⟨x, hx, ?_, ?_⟩
+    · intro e; simp [e] at hc
+    · intro e; simp [e] at hc
+  · rintro ⟨x, hx, h1, h2⟩
+    refine ⟨x, hx, ?_⟩
+    cases hr : x.rows with
+    | nil => exact absurd hr h1
+    | cons a b => simp [h2]
+
+/-- **flatten_refusals_iff**: which exception `flatten` raises, exactly: AssertionError iff a selected record has rows
+    and no `Step` column; otherwise IndexError iff the selection is empty; otherwise ValueError iff two or more records
+    are selected and the style is none of `first` / `last` / `all`. -/
+theorem flatten_refusals_iff (style : Str) (tabs : List Table) :
+    (flattenTables style tabs = .error .assert ↔ AssertFails tabs) ∧
+    (flattenTables style tabs = .error .index ↔ ¬ AssertFails tabs ∧ tabs = []) ∧
+    (flattenTables style tabs = .error .value ↔ ¬ AssertFails tabs ∧ 2 ≤ tabs.length ∧ ¬ IsStyle style) := by
+  by_cases ha : AssertFails tabs
+  · have h := flatten_refuses_missing_step style tabs ha
+    simp [h, ha]
+  · have h0 : tabs.any (fun t => !t.rows.isEmpty && !t.cols.contains stepName) = false := by
+      rw [← Bool.not_eq_true, assertFails_iff]; exact ha
+    simp only [ha, not_false_eq_true, true_and, iff_false]
+    match tabs, h0 with
+    | [], _ => simp [flattenTables]
+    | [t], h0 =>
+      have : flattenTables style [t] = .ok t := by unfold flattenTables; rw [h0]; rfl
+      simp [this]
+    | t :: t' :: ts, h0 =>
+      by_cases hs : IsStyle style
+      · have hns : (!(style == "first".toList || style == "last".toList || style == "all".toList)) = false := by
+          rcases hs with rfl | rfl | rfl <;> decide
+        simp only [hs, not_true_eq_false, and_false, iff_false, length_cons, reduceCtorEq]
+        unfold flattenTables
+        rw [h0]
+        simp only [Bool.false_eq_true, if_false, hns]
+        refine ⟨?_, ?_, ?_⟩
+        all_goals intro h
+        all_goals repeat' split at h
+        all_goals try cases h
+        all_goals first
+          | (rename_i e he; have := mapM_tableRows_error _ _ _ he; cases this)
+          | (rename_i rows hrows _ hm
+             have hl := mapM_tableRows_length _ _ _ hrows
+             cases rows with
+             | nil => simp at hl
+             | cons r rs =>
+               simp only [flattenFirst, flattenLast, flattenAll, flattenWith] at hm
+               repeat' split at hm
+               all_goals cases hm)
+      · have h := flatten_refuses_style style t t' ts (by
+            intro x hx
+            by_contra hc
+            push Not at hc
+            exact ha ⟨x, hx, hc.1, hc.2⟩)
+          ⟨fun e => hs (Or.inl e), fun e => hs (Or.inr (Or.inl e)), fun e => hs (Or.inr (Or.inr e))⟩
+        simp [h, hs]
+
+example : AssertFails [⟨["Step".toList], [["0".toList]]⟩, ⟨["Time".toList], [["0.5".toList]]⟩] :=
+  ⟨⟨["Time".toList], [["0.5".toList]]⟩, by simp, by decide, by decide⟩
+
+/-! ## round 6: statements about the regenerated functions, call sequences, input forms -/
+
+/-- **gen_read_tables**: `read_tables` stated directly about the functions regenerated from the source: the pass of
+    `Gen.LogSrc.step` from `Gen.LogSrc.init`, closed by `Gen.LogSrc.finish`, followed by the table loop gives one table
+    per run of any well-formed layout, in order, with the header tokens as columns and the printed lines as rows — also
+    when the last run is cut short. -/
+theorem gen_read_tables (L : Layout) (h : L.WF) (hv : Bool) :
+    let sc := Gen.LogSrc.finish (L.lines.foldl Gen.LogSrc.step (Gen.LogSrc.init hv))
+    readBlocks (nonBlank L.lines) sc.thermoHeaders sc.thermoFooters = .ok (L.runs.map Run.table) := by
+  intro sc
+  have := gen_tables_eq_model hv L.lines
+  simp only at this
+  show readBlocks _ (Gen.LogSrc.finish _).thermoHeaders (Gen.LogSrc.finish _).thermoFooters = _
+  rw [this]
+  exact thermoTables_layout L h _ rfl
+
+/-- **read_sequence_default**: `log = Log(a); log.read(b)` with the flags left out: the records are the tables of `a`
+    followed by the tables of `b`, each set as it is read alone. -/
+theorem read_sequence_default (a b : List Str) (st1 st2 : LogState)
+    (h1 : ctorCall (some a) = .ok st1) (h2 : readCall st1 none b = .ok st2) :
+    ∃ ta tb, tablesOf a = .ok ta ∧ tablesOf b = .ok tb ∧ st2.sims.map Sim.thermo = ta ++ tb := by
+  obtain ⟨ta, hta, e1⟩ := read_append LogState.empty st1 a h1
+  obtain ⟨tb, htb, e2⟩ := read_append st1 st2 b h2
+  refine ⟨ta, tb, hta, htb, ?_⟩
+  rw [e2, e1]
+  simp [LogState.empty]
+
+/-- **read_input_forms**: the same log given as text (or bytes), as the name of a file holding it, or as an open binary
+    stream over it — wherever that stream stands — is read to the same records, version and date (or refused with the
+    same exception); a stream opened in text mode is refused with ValueError and the log is left as it was. -/
+theorem read_input_forms (st : LogState) (append : Option Bool) (t : Str) (s : Stream) (hs : s.lines = splitLines t) :
+    (readInput st append (.text t)).map Prod.fst = (readInput st append (.file t)).map Prod.fst ∧
+    (readInput st append (.stream s)).map Prod.fst = (readInput st append (.text t)).map Prod.fst ∧
+    readInput st append .textStream = .error .value := by
+  refine ⟨rfl, ?_, rfl⟩
+  obtain ⟨s', _, e⟩ := read_stream st (append.getD Gen.Log.readAppendDefault) s
+  simp only [readInput, e, hs, readCall]
+  cases readLog st (append.getD Gen.Log.readAppendDefault) (splitLines t) <;> rfl
+
+/-! ## round 6: printer ∘ reader = identity on the simple log grammar -/
+
+/-- a run of the simple grammar: a header line of keyword cells that holds no trigger, data rows of NUMBERS (nothing
+    asked of them beyond being numbers, properly padded and no wider than the header), and — unless the run is cut
+    short — a loop line and trigger-free lines after it. -/
+structure RunSpec.Simple (r : RunSpec) (last : Bool) : Prop where
+  banner_perf : PerfQuiet r.banner.line
+  header_ok : lineOk r.header r.headerTrail
+  header_quiet : NoTrigger (renderCells r.header r.headerTrail) ∧ PerfQuiet (renderCells r.header r.headerTrail)
+  rows_ok : ∀ x ∈ r.rows, lineOk x.1 x.2 ∧ x.1.length ≤ r.header.length ∧ ∀ c ∈ x.1, c.tok.all isNumChar = true
+  tail_ok : match r.tail with
+    | none => last = true
+    | some (x, post) =>
+      hasAny thermoStart (loopLine x.1 x.2.1 x.2.2.1 x.2.2.2) = false ∧
+        PerfQuiet (loopLine x.1 x.2.1 x.2.2.1 x.2.2.2) ∧ ∀ l ∈ post, Quiet l ∧ PerfQuiet l
+
+def specRunsSimple : List RunSpec → Prop
+  | [] => True
+  | [r] => r.Simple true
+  | r :: r' :: rs => r.Simple false ∧ specRunsSimple (r' :: rs)
+
+structure LogSpec.Simple (S : LogSpec) : Prop where
+  version_quiet : NoTrigger (versionLineOf S.version) ∧ PerfQuiet (versionLineOf S.version)
+  head_quiet : ∀ l ∈ S.head, Quiet l ∧ PerfQuiet l
+  runs_ok : specRunsSimple S.runs
+
+theorem RunSpec.Simple.wf {r : RunSpec} {last : Bool} (h : r.Simple last) : r.WF last where
+  header_ok := h.header_ok
+  header_quiet := h.header_quiet.1
+  rows_ok := fun x hx => ⟨(h.rows_ok x hx).1, (h.rows_ok x hx).2.1,
+    (numeric_row_quiet _ _ (h.rows_ok x hx).1 (h.rows_ok x hx).2.2).1⟩
+  tail_ok := by
+    have := h.tail_ok
+    cases ht : r.tail with
+    | none => rw [ht] at this; simpa using this
+    | some xp =>
+      obtain ⟨x, post⟩ := xp
+      rw [ht] at this
+      exact ⟨this.1, fun l hl => (this.2.2 l hl).1⟩
+
+theorem specRunsSimple_wf : ∀ rs : List RunSpec, specRunsSimple rs → specRunsWF rs
+  | [], _ => trivial
+  | [r], h => RunSpec.Simple.wf h
+  | r :: r' :: rs, h => ⟨RunSpec.Simple.wf h.1, specRunsSimple_wf (r' :: rs) h.2⟩
+
+theorem RunSpec.Simple.perf {r : RunSpec} {last : Bool} (h : r.Simple last) : ∀ l ∈ r.toRun.lines, PerfQuiet l := by
+  intro l hl
+  simp only [Run.lines, RunSpec.toRun, mem_append, mem_singleton, mem_replicate, mem_map] at hl
+  rcases hl with (((rfl | ⟨_, rfl⟩) | rfl) | ⟨x, hx, rfl⟩) | hl
+  · exact h.banner_perf
+  · exact Or.inl rfl
+  · exact h.header_quiet.2
+  · exact (numeric_row_quiet _ _ (h.rows_ok x hx).1 (h.rows_ok x hx).2.2).2
+  · have := h.tail_ok
+    cases ht : r.tail with
+    | none => rw [ht] at hl; simp at hl
+    | some xp =>
+      obtain ⟨x, post⟩ := xp
+      rw [ht] at hl this
+      simp only [Option.map_some, mem_cons] at hl
+      rcases hl with rfl | hl
+      · exact this.2.1
+      · exact (this.2.2 l hl).2
+
+theorem specRunsSimple_perf : ∀ rs : List RunSpec, specRunsSimple rs → ∀ r ∈ rs, ∀ l ∈ r.toRun.lines, PerfQuiet l
+  | [], _ => by intro _ hr; simp at hr
+  | [r], h => by intro r' hr'; simp only [mem_singleton] at hr'; subst hr'; exact RunSpec.Simple.perf h
+  | r :: r' :: rs, h => by
+    intro x hx
+    rcases mem_cons.mp hx with rfl | hx
+    · exact RunSpec.Simple.perf h.1
+    · exact specRunsSimple_perf (r' :: rs) h.2 x hx
+
+/-- **ctor_grammar**: printer ∘ reader = identity on the simple LAMMPS-log grammar — `LAMMPS (<version>)`, trigger-free
+    preamble, any number of runs (either memory banner, blank gap, a header of keyword cells, ANY rows of numbers,
+    loop line and trigger-free text after it; the last run possibly cut short): `Log(renderLog S)` has exactly one
+    record per run, in order, whose table has the printed keywords as columns and the printed numbers row for row, the
+    version string and its date.  No hypothesis is left on the data rows. -/
+theorem ctor_grammar (S : LogSpec) (h : S.Simple) (d : Date) (hd : dateOf S.version = .ok d) :
+    ∃ st, ctorCall (some (renderLog S)) = .ok st ∧
+      st.sims.map Sim.thermo = S.runs.map RunSpec.table ∧ (∀ s ∈ st.sims, s.keys = ["thermo"]) ∧
+      st.version = some S.version ∧ st.date = some d := by
+  have hwf : S.WF := ⟨h.version_quiet.1, fun l hl => (h.head_quiet l hl).1, specRunsSimple_wf _ h.runs_ok⟩
+  refine ctor_render S hwf ?_ d hd
+  intro l hl
+  simp only [renderLog, Layout.lines, LogSpec.toLayout, mem_cons, mem_append, mem_flatMap, mem_map] at hl
+  rcases hl with (rfl | hl) | ⟨_, ⟨r, hr, rfl⟩, hl⟩
+  · exact h.version_quiet.2
+  · exact (h.head_quiet l hl).2
+  · exact specRunsSimple_perf _ h.runs_ok r hr l hl
+
+theorem demoSpec_Simple : demoSpec.Simple where
+  version_quiet := by decide
+  head_quiet := by decide
+  runs_ok := by
+    refine ⟨⟨by decide, by decide, by decide, by decide, ?_⟩, ⟨by decide, by decide, by decide, by decide, ?_⟩⟩
+    · show _ ∧ _ ∧ _; decide
+    · rfl
+
+example : ∃ st, ctorCall (some (renderLog demoSpec)) = .ok st ∧
+    st.sims.map Sim.thermo = demoSpec.runs.map RunSpec.table ∧ (∀ s ∈ st.sims, s.keys = ["thermo"]) ∧
+    st.version = some demoSpec.version ∧ st.date = some ⟨2024, 2, 29⟩ :=
+  ctor_grammar demoSpec demoSpec_Simple ⟨2024, 2, 29⟩ (by decide)
+
 end Atomman.C19
